@@ -43,8 +43,8 @@ Record DataInv (a : allocst) : Prop := {
   di_end : 2 <= a_end (data a) }.
 
 (* ---------- dataAllocator.AllocRegionsWith (Tx.Alloc / Tx.AllocN) ---------- *)
-Theorem data_alloc_regions_spec a t n regs cnt a' t' :
-  DataInv a -> 0 < n < 2^32 ->
+Theorem data_alloc_regions_spec0 a t n regs cnt a' t' :
+  DataInv a -> 0 <= n < 2^32 ->
   data_alloc_regions a t n = (regs, cnt, a', t') ->
   (data_avail a < n -> regs = [] /\ cnt = 0 /\ a' = a /\ t' = t) /\
   (n <= data_avail a ->
@@ -115,6 +115,22 @@ Proof.
     intros Hmp. unfold data_avail. cbn [data a_free a_end maxPages set_meta set_data].
     replace (maxPages a =? 0) with false by lia. fold f. lia.
 Qed.
+
+Theorem data_alloc_regions_spec a t n regs cnt a' t' :
+  DataInv a -> 0 < n < 2^32 ->
+  data_alloc_regions a t n = (regs, cnt, a', t') ->
+  (data_avail a < n -> regs = [] /\ cnt = 0 /\ a' = a /\ t' = t) /\
+  (n <= data_avail a ->
+     cnt = n /\ count_pages regs = n /\ wfl 2 regs /\
+     (* every page handed out was free: in the data free list, or beyond the end of the data area *)
+     (forall id, inl id regs -> inl id (fregions (a_free (data a))) \/ a_end (data a) <= id) /\
+     (* and is not free any more: it can not be handed out again *)
+     (forall id, inl id regs -> ~ inl id (fregions (a_free (data a'))) /\ id < a_end (data a')) /\
+     DataInv a' /\
+     (forall id, inl id (fregions (a_free (data a'))) -> inl id (fregions (a_free (data a)))) /\
+     a_free (meta a') = a_free (meta a) /\ metaTotal a' = metaTotal a /\ maxPages a' = maxPages a /\
+     (maxPages a <> 0 -> data_avail a' = data_avail a - n)).
+Proof. intros ID Hn. apply data_alloc_regions_spec0; [exact ID | lia]. Qed.
 
 (* ---------- dataAllocator.Free ---------- *)
 (* a page that was not allocated by the running transaction (a page of the committed state) is only
